@@ -16,8 +16,11 @@ META = {
             "tolerance, shape, CRS incl. datum-only and axis-order-only differences, kwargs) - unequal and "
             "digest-different beyond tolerance; (iii) == reflexive/symmetric on pairs at the tolerance boundary vs "
             "the model; (iv) random histories of hash/append/slice/copy on swaths - hash must equal that of a "
-            "fresh object with the same coordinates. Non-trivial: group with >= 3 spellings, perturbation, or a "
-            "history containing hash followed by a modification. Distinct = distinct canonical input.",
+            "fresh object with the same coordinates; (v) random histories on ONE resampler instance (BaseResampler and subclasses, future "
+            "resamplers): key request / append to a held swath / reassignment of source_geo_def or target_geo_def / key request - every key "
+            "equals that of a fresh resampler on fresh geometries and get_hash with the geometries given explicitly, and is not shared with "
+            "an unequal geometry held earlier. Non-trivial: group with >= 3 spellings, perturbation, or a "
+            "history containing hash (or a cache key request) followed by a modification (and another request). Distinct = distinct canonical input.",
     "assumptions": ["SHA-1 is collision-free on the inputs seen", "pyproj normalises equivalent CRS spellings to one WKT (observed, not proved)"],
 }
 
@@ -529,9 +532,161 @@ def suite_area_full_slice(ctx):
         ctx.count("area.full_slice." + ("rerendered_crs" if rerendered else "stable_crs"))
 
 
+def suite_resampler_histories(ctx):
+    """histories on ONE resampler instance: a cache key is requested (BaseResampler.get_hash and its subclasses, the future resamplers'
+    _get_hash), then a geometry the resampler holds is modified through its public methods (swath.append) or the public attributes
+    source_geo_def / target_geo_def are reassigned (to another geometry, or to an equal one built anew), then a key is requested again,
+    in any order.  Every key must be the key a freshly built resampler gives on freshly built geometries with the current coordinates,
+    must equal get_hash(source_geo_def=..., target_geo_def=..., **kw) with the current geometries given explicitly, and must not be a key
+    that the same keywords had while the resampler held an unequal geometry.  All sides come from the real code."""
+    from pyresample.ewa import DaskEWAResampler
+    from pyresample.future.resamplers import KDTreeNearestXarrayResampler
+    from pyresample.geometry import SwathDefinition
+    from pyresample.gradient import ResampleBlocksGradientSearchResampler
+    from pyresample.resampler import BaseResampler
+    r = ctx.rng
+    kws = [dict(radius_of_influence=10000, neighbours=1), dict(radius_of_influence=10000, neighbours=4), dict(radius_of_influence=50000, neighbours=1, epsilon=0.0),
+           dict(), dict(rows_per_scan=2), dict(method="nn")]
+    projs = ["EPSG:4326", "EPSG:32633", {"proj": "laea", "lat_0": 45.0, "lon_0": 10.0, "ellps": "WGS84"}, {"proj": "stere", "lat_0": 90, "lat_ts": 60, "lon_0": 0, "ellps": "WGS84"}]
+
+    def rows(k, w):
+        return (np.array([[r.uniform(-180, 180) for _ in range(w)] for _ in range(k)]).reshape(k, w),
+                np.array([[r.uniform(-90, 90) for _ in range(w)] for _ in range(k)]).reshape(k, w))
+
+    def new_spec(kind, w=None):
+        if kind == "swath":
+            w = w or r.randrange(2, 6)
+            lo, la = rows(r.randrange(1, 5), w)
+            return ["swath", lo, la]
+        proj = r.choice(projs)
+        W, H = r.randrange(2, 20), r.randrange(2, 20)
+        if proj == "EPSG:4326":
+            x0, y0, px = float(r.randrange(-40, 40)), float(r.randrange(-40, 40)), r.choice([0.25, 0.5, 1.0])
+        else:
+            x0, y0, px = float(r.randrange(-500, 500) * 1000), float(r.randrange(-500, 500) * 1000), r.choice([250.0, 1000.0, 3000.0])
+        return ["area", proj, W, H, (x0, y0, x0 + W * px, y0 + H * px)]
+
+    def build(spec):
+        if spec[0] == "swath":
+            return SwathDefinition(spec[1].copy(), spec[2].copy())
+        return _mk(*spec[1:])
+
+    def describe(spec):
+        return f"swath{spec[1].shape}" if spec[0] == "swath" else f"area({str(spec[1])[:24]}, {spec[3]}x{spec[2]})"
+
+    def canon(spec):
+        return (spec[0], spec[1].tobytes(), spec[2].tobytes(), spec[1].shape) if spec[0] == "swath" else (spec[0], str(spec[1]), spec[2], spec[3], spec[4])
+
+    classes = {"BaseResampler": (BaseResampler, "get_hash"), "DaskEWAResampler": (DaskEWAResampler, "get_hash"),
+               "ResampleBlocksGradientSearchResampler": (ResampleBlocksGradientSearchResampler, "get_hash"),
+               "future.KDTreeNearestXarrayResampler": (KDTreeNearestXarrayResampler, "_get_hash")}
+    for _ in range(160 if ctx.quick else 1600):
+        cname = r.choice(["BaseResampler", "BaseResampler", "DaskEWAResampler", "ResampleBlocksGradientSearchResampler", "future.KDTreeNearestXarrayResampler"])
+        klass, meth = classes[cname]
+        # (the EWA resampler wants a swath as source, the gradient resampler turns swath sources into dask arrays: areas there)
+        src_kind = "swath" if cname == "DaskEWAResampler" else "area" if cname.startswith("ResampleBlocks") else r.choice(["swath", "swath", "area"])
+        spec = {"source": new_spec(src_kind), "target": new_spec(r.choice(["area", "area", "swath"]))}
+        with warnings.catch_warnings():
+            warnings.simplefilter("ignore")
+            rs = klass(build(spec["source"]), build(spec["target"]))
+        site = "Resampler._get_hash" if cname.startswith("future") else "BaseResampler.get_hash"
+        hist, bad = [], None
+        seen = {}            # kw index -> [(canonical geometry pair, key)]
+        keyed = modified_after_key = key_after_modification = False
+
+        def ask_key(kwi):
+            """one key request on the long-lived resampler, checked against the fresh paths"""
+            kw = kws[kwi]
+            with warnings.catch_warnings():
+                warnings.simplefilter("ignore")
+                now = getattr(rs, meth)(**kw)
+                fresh_src, fresh_tgt = build(spec["source"]), build(spec["target"])
+                fresh = getattr(klass(fresh_src, fresh_tgt), meth)(**kw)
+                if not (rs.source_geo_def == fresh_src and rs.target_geo_def == fresh_tgt):
+                    return "the geometries held by the resampler do not equal freshly built ones with the same coordinates (harness shadow out of step)", "shadow"
+                if now != fresh:
+                    return (f"{meth}({kw}) = {now[:12]}.. but a freshly built {cname} on equal geometries (source {describe(spec['source'])}, target "
+                            f"{describe(spec['target'])}) gives {fresh[:12]}..: equal geometries, different cache keys"), "stale-key"
+                if meth == "get_hash":
+                    explicit = rs.get_hash(source_geo_def=rs.source_geo_def, target_geo_def=rs.target_geo_def, **kw)
+                    if explicit != now:
+                        return f"get_hash({kw}) differs from get_hash(source_geo_def=<its source>, target_geo_def=<its target>, {kw}) on the same resampler", "implicit-explicit"
+                    for which in ("source", "target"):
+                        part = rs.get_hash(**{f"{which}_geo_def": getattr(rs, f"{which}_geo_def")}, **kw)
+                        if part != now:
+                            return f"get_hash({kw}) differs from get_hash({which}_geo_def=<its {which}>, {kw}) on the same resampler", "implicit-explicit"
+            pair = (canon(spec["source"]), canon(spec["target"]))
+            for old_pair, old_key in seen.get(kwi, []):
+                if old_pair != pair and old_key == now:
+                    return (f"{meth}({kw}) returns the key it returned while the resampler held an unequal geometry: unequal geometries share a cache key"), "shared-key"
+            seen.setdefault(kwi, []).append((pair, now))
+            return None
+
+        n_steps = r.randrange(3, 8)
+        for step in range(n_steps):
+            op = "key" if step == 0 and r.random() < 0.7 else r.choice(["key", "key", "append", "append", "reassign", "reassign-equal", "hash-geometry"])
+            if op == "key":
+                kwi = r.randrange(len(kws))
+                hist.append(f"{meth}({kws[kwi]})")
+                key_after_modification |= modified_after_key
+                res = ask_key(kwi)
+                keyed = True
+                if res:
+                    bad = res
+                    break
+                continue
+            which = r.choice(["source", "target"])
+            geo = getattr(rs, f"{which}_geo_def")
+            if op == "append":
+                if spec[which][0] != "swath":
+                    continue
+                k = r.randrange(0, 3)
+                o_lo, o_la = rows(k, spec[which][1].shape[1])
+                geo.append(SwathDefinition(o_lo, o_la))
+                spec[which][1], spec[which][2] = np.concatenate([spec[which][1], o_lo]), np.concatenate([spec[which][2], o_la])
+                hist.append(f"{which}_geo_def.append({k} rows)")
+                modified_after_key |= keyed and k > 0
+            elif op == "reassign":
+                kind = "swath" if (cname == "DaskEWAResampler" and which == "source") else "area" if (cname.startswith("ResampleBlocks") and which == "source") \
+                    else r.choice(["swath", "area"])
+                spec[which] = new_spec(kind)
+                with warnings.catch_warnings():
+                    warnings.simplefilter("ignore")
+                    setattr(rs, f"{which}_geo_def", build(spec[which]))
+                hist.append(f"{which}_geo_def = {describe(spec[which])}")
+                modified_after_key |= keyed
+            elif op == "reassign-equal":
+                with warnings.catch_warnings():
+                    warnings.simplefilter("ignore")
+                    setattr(rs, f"{which}_geo_def", build(spec[which]))
+                hist.append(f"{which}_geo_def = <an equal {spec[which][0]} built anew>")
+            else:
+                hash(geo)
+                hist.append(f"hash({which}_geo_def)")
+        if not bad:
+            # whatever happened: every keyword set once more at the end
+            for kwi in range(len(kws)):
+                key_after_modification |= modified_after_key
+                res = ask_key(kwi)
+                if res:
+                    hist.append(f"{meth}({kws[kwi]})")
+                    bad = res
+                    break
+        inp = {"resampler": cname, "source": describe(spec["source"]), "target": describe(spec["target"]), "history": hist}
+        if bad and bad[1] == "shadow":
+            ctx.disagree("resampler.history.shadow", inp, "geometries differ", "equal", bad[0])
+        elif bad:
+            ctx.fail(site, "after this history on one resampler: " + bad[0], inp, tags={"kind": bad[1], "history": True}, size=len(hist))
+        ctx.case("resampler.history", (cname, str(hist), canon(spec["source"]), canon(spec["target"])), nontrivial=key_after_modification,
+                 sample={"input": inp} if key_after_modification else None)
+        ctx.count("resampler.history." + cname)
+        ctx.count("resampler.history." + ("key_modify_key" if key_after_modification else "other"))
+
+
 def run(ctx):
     suite_area_spellings(ctx)
     suite_area_perturb(ctx)
     suite_eq_boundary(ctx)
     suite_swath(ctx)
     suite_area_full_slice(ctx)
+    suite_resampler_histories(ctx)
